@@ -176,6 +176,53 @@ static void dump_hist(const char *k, int idx, struct cmb_timeseries *ts)
 
 static uint64_t gcount(struct cmb_resourceguard *g) { return cmi_hashheap_count((struct cmi_hashheap *)g); }
 
+/* After the final dump (nothing below is part of the compared log): end the run the way the library's own tests do - an event
+ * stops every process that is still running, the queue is run dry, then every process is terminated and every object and the
+ * event queue destroyed. An abort or a sanitizer report here fails the run like any other. */
+static struct { int c, kind, idx, which; } subs[64];
+static int nsub = 0;
+
+static struct cmb_resourceguard *sub_guard(int i)
+{
+    const int k = subs[i].kind, x = subs[i].idx, wh = subs[i].which;
+    if (k == 0 && x < nres) return &res[x]->guard;
+    if (k == 1 && x < npool) return &pools[x]->guard;
+    if (k == 2 && x < nbuf) return wh ? &bufs[x]->rear_guard : &bufs[x]->front_guard;
+    if (k == 3 && x < noq) return wh ? &oqs[x]->rear_guard : &oqs[x]->front_guard;
+    if (k == 4 && x < npq) return wh ? &pqs[x]->rear_guard : &pqs[x]->front_guard;
+    return NULL;
+}
+
+static void end_all_evt(void *subject, void *object)
+{
+    (void)subject; (void)object;
+    for (int p = 0; p < nproc; p++) {
+        if (running(p)) cmb_process_stop(&procs[p], NULL);
+    }
+}
+
+static void teardown(void)
+{
+    if (freopen("/dev/null", "w", stdout) == NULL) return;
+    (void)cmb_event_schedule(end_all_evt, NULL, NULL, cmb_time(), INT64_MAX);
+    long m = 0;
+    while (cmb_event_execute_next()) { if (++m >= DISPATCH_CAP) break; }
+    for (int p = 0; p < nproc; p++) cmb_process_terminate(&procs[p]);
+    for (int i = 0; i < nsub; i++) {
+        struct cmb_resourceguard *g = sub_guard(i);
+        if (g != NULL && subs[i].c < ncond) (void)cmb_condition_unsubscribe(conds[subs[i].c], g);
+    }
+    for (int i = 0; i < ncond; i++) cmb_condition_destroy(conds[i]);
+    for (int i = 0; i < nres; i++) cmb_resource_destroy(res[i]);
+    for (int i = 0; i < npool; i++) cmb_resourcepool_destroy(pools[i]);
+    for (int i = 0; i < nbuf; i++) cmb_buffer_destroy(bufs[i]);
+    for (int i = 0; i < noq; i++) cmb_objectqueue_destroy(oqs[i]);
+    for (int i = 0; i < npq; i++) cmb_priorityqueue_destroy(pqs[i]);
+    cmb_event_queue_terminate();
+    free(procs);
+    free(pctx);
+}
+
 int main(void)
 {
     char line[256];
@@ -185,8 +232,6 @@ int main(void)
     procs = calloc(MAXP, sizeof(*procs));
     pctx = calloc(MAXP, sizeof(*pctx));
     int cur = -1, left = 0;
-    struct { int c, kind, idx, which; } subs[64];
-    int nsub = 0;
     while (fgets(line, sizeof line, stdin) != NULL) {
         char w[6][24] = { "", "", "", "", "", "" };
         const int n = sscanf(line, "%23s %23s %23s %23s %23s %23s", w[0], w[1], w[2], w[3], w[4], w[5]);
@@ -214,13 +259,7 @@ int main(void)
         }
     }
     for (int i = 0; i < nsub; i++) {
-        struct cmb_resourceguard *g = NULL;
-        const int k = subs[i].kind, x = subs[i].idx, wh = subs[i].which;
-        if (k == 0 && x < nres) g = &res[x]->guard;
-        else if (k == 1 && x < npool) g = &pools[x]->guard;
-        else if (k == 2 && x < nbuf) g = wh ? &bufs[x]->rear_guard : &bufs[x]->front_guard;
-        else if (k == 3 && x < noq) g = wh ? &oqs[x]->rear_guard : &oqs[x]->front_guard;
-        else if (k == 4 && x < npq) g = wh ? &pqs[x]->rear_guard : &pqs[x]->front_guard;
+        struct cmb_resourceguard *g = sub_guard(i);
         if (g != NULL && subs[i].c < ncond) cmb_condition_subscribe(conds[subs[i].c], g);
     }
     for (int i = 0; i < nproc; i++) {
@@ -259,5 +298,6 @@ int main(void)
     for (int i = 0; i < noq; i++) dump_hist("oq", i, cmb_objectqueue_history(oqs[i]));
     for (int i = 0; i < npq; i++) dump_hist("pq", i, cmb_priorityqueue_history(pqs[i]));
     fflush(stdout);
+    teardown();
     return 0;
 }
